@@ -88,6 +88,9 @@ func (s *astate) rangeOf(b BitVec, signed bool) (srange, bool) {
 		if !signed && w > 0 && w < 63 {
 			return srange{0, int64(1)<<uint(w) - 1}, true
 		}
+		if !signed && w == 63 {
+			return srange{0, math.MaxInt64}, true
+		}
 	}
 	// zero-extended narrower value: at most its width
 	n := len(b)
@@ -336,6 +339,9 @@ func (ex *Exec) forkIntrinsic(s *astate, fr *aframe, x *ssa.Call) []*astate {
 		return nil
 	}
 	rg, ok := s.rangeOf(a.Bits, false)
+	if os.Getenv("VERIF_DEBUG_IB") != "" {
+		fmt.Printf("DEBUG forkLen %s arg=%s range=%v ok=%v\n", name, NameBits(a.Bits), rg, ok)
+	}
 	if !ok || rg.lo < 0 {
 		return nil
 	}
@@ -380,6 +386,21 @@ func (ex *Exec) forkIntrinsic(s *astate, fr *aframe, x *ssa.Call) []*astate {
 		}
 		if hi > rg.hi {
 			hi = rg.hi
+		}
+		// values the path has excluded at the lower end (v != 0 tested before) cannot take this length
+		if src, plain := plainSource(a.Bits); plain {
+			for again := true; again && lo <= hi; {
+				again = false
+				for _, e := range s.excl[src] {
+					if e == lo {
+						lo++
+						again = true
+					}
+				}
+			}
+		}
+		if lo > hi {
+			continue
 		}
 		c.narrow(a.Bits, false, lo, hi)
 		cf.env[x] = AVal{K: AInt, Bits: constBits(uint64(k), w)}
